@@ -13,6 +13,10 @@ R03b threshold orientation: in _is_awaiting_threshold the comparison handed to u
      block, scope tag otherwise), the threshold operand from node.threshold, and the function returns
      True exactly when that comparison is true; BaseUnitProvider stores (main, block) in the order
      get_tags' consumers unpack, and the time units are registered with (Scope Time, Block Time).
+R03c start of a timed wait: the start operand of get_duration_end is the clock the waiting loop compares against (the tick
+     time), read when the instruction is first visited - directly (Pause/Hold), or through an attribute of the node (Wait:
+     node.wait_start_time) whose every write in the interpreter has that clock as its only source (helper returns are
+     followed) and which the node's reset_runtime_state clears, so a second invocation (macro call, Alarm body) counts anew.
 If an anchor is rewritten in a shape the extractor does not recognise the check exits 2, not 1.
 Does not decide "no later than the first tick at which ...", the 0.1 s correction, or pauses.
 """
@@ -21,7 +25,7 @@ from __future__ import annotations
 import ast
 
 from ..model import AnchorError, norm, walk_no_nested
-from ..util import cfg_of, call_attr, local_single_defs, expand_local
+from ..util import cfg_of, call_attr, local_single_defs, expand_local, canon_text, assigned_attrs
 from ..cfg import facts_at
 
 EXPLANATION = __doc__
@@ -68,6 +72,7 @@ def _multiplier(e, var="time"):
 def run(ctx) -> None:
     prog = ctx.prog
     ctx.rule("R03a", "duration regex units == get_duration_end units with multipliers 1/60/3600; all waits use it")
+    ctx.rule("R03c", "a timed wait starts counting at the tick time of its first visit")
     ctx.rule("R03b", "threshold comparison orientation and clock selection")
     rx = prog.module("openpectus.lang.exec.regex")
     units_by_const = {}
@@ -180,6 +185,14 @@ def run(ctx) -> None:
             ctx.ok("R03a", inst)
         else:
             ctx.fail("R03a", f, c, inst, "the wait does not last until the computed end time")
+        # R03c: the start operand is the tick time of the first visit (the clock the waiting loop compares against)
+        clock = None
+        for lp in loops:
+            for x in ast.walk(lp.test):
+                if isinstance(x, ast.Compare) and isinstance(x.ops[0], ast.Lt) and norm(x.comparators[0]) == endvar:
+                    clock = canon_text(x.left, f)
+        if clock is not None:
+            _check_wait_start(ctx, f, c, clock)
     # ---- R03b
     f = prog.func("openpectus.lang.exec.pinterpreter:PInterpreter._is_awaiting_threshold")
     ctx.analysed(f)
@@ -420,3 +433,64 @@ def _incomplete_memo_key(fn):
         if missing:
             return cache, norm(key), ", ".join(missing)
     return None
+
+
+def _leaves(ctx, e, f, depth=0):
+    """Source expressions of a value: locals expanded, IfExp branches split, helper calls replaced by what they return."""
+    e = expand_local(e, local_single_defs(f))
+    if isinstance(e, ast.IfExp):
+        return _leaves(ctx, e.body, f, depth) + _leaves(ctx, e.orelse, f, depth)
+    if isinstance(e, ast.Call) and depth < 3:
+        ts = ctx.res.resolve_call(e, f, cha=False)
+        if ts:
+            out = []
+            for t in ts:
+                rets = [n.value for n in walk_no_nested(t.node) if isinstance(n, ast.Return) and n.value is not None]
+                if not rets:
+                    out.append((norm(e), f))
+                for r in rets:
+                    out += _leaves(ctx, r, t, depth + 1)
+            return out
+    return [(canon_text(e, f), f)]
+
+
+def _check_wait_start(ctx, f, call, clock):
+    start = call.args[0]
+    inst = f"{f.short}: the wait counts from the tick time of its first visit"
+    npar = f.node.args.args[1].arg if len(f.node.args.args) > 1 else None
+    if isinstance(start, ast.Attribute) and isinstance(start.value, ast.Name) and start.value.id == npar:
+        attr = start.attr
+        writes = [(t, v, st) for t, v, st in assigned_attrs(f.node) if t.attr == attr]
+        if not writes:
+            raise AnchorError(f"{f.short}: no write of node.{attr} found")
+        bad = []
+        for t, v, st in writes:
+            if isinstance(v, ast.Constant) and v.value is None:
+                continue
+            for txt, fn in _leaves(ctx, v, f):
+                if txt != clock:
+                    bad.append((st, txt, fn))
+        if bad:
+            st, txt, fn = bad[0]
+            ctx.fail("R03c", f, st, inst, f"node.{attr} can be taken from `{txt}` ({fn.short}) instead of the tick time of this visit: when the "
+                     "same instruction runs again (macro called twice, Alarm body) the wait is measured from an earlier time and ends early")
+        else:
+            ctx.ok("R03c", inst, {"rule": "R03c", "start": f"node.{attr}", "clock": clock})
+        # the node's own reset clears the start, so a second invocation counts anew
+        owners = [c for m in ctx.prog.iter_modules() for c in m.classes.values() if attr in c.inst_attr_vals and "model" in m.name]
+        inst2 = f"{attr} is cleared by reset_runtime_state"
+        for c in owners:
+            rs = c.methods.get("reset_runtime_state")
+            if rs is not None and any(t.attr == attr and isinstance(v, ast.Constant) and v.value is None for t, v, st in assigned_attrs(rs.node)):
+                ctx.ok("R03c", inst2)
+            else:
+                ctx.fail("R03c", rs or f, (rs.node if rs else f.node), inst2, "the start time of the previous invocation survives the reset: the next "
+                         "invocation of the same Wait ends early")
+        if not owners:
+            raise AnchorError(f"class owning {attr} not found")
+    else:
+        txt = canon_text(start, f)
+        if txt == clock:
+            ctx.ok("R03c", inst, {"rule": "R03c", "start": txt})
+        else:
+            ctx.fail("R03c", f, call, inst, f"the start operand is `{txt}`, not the clock `{clock}` the waiting loop compares against")
